@@ -4,7 +4,7 @@ import re
 
 from . import mirlib as M
 from . import symex as S
-from .common import LogModel, run_fn, ret_paths, variant_of, argval, argstr
+from .common import LogModel, run_fn, ret_paths, variant_of, argval, argstr, search_table, is_eq_of
 
 ADAPTERS = r"Iterator>::(skip|take|filter|step_by|rev|skip_while|take_while|chain|zip)\b"
 
@@ -22,7 +22,7 @@ def analyze(ctx, want):
                           (r"CompiledDfa as std::convert::From<internal::nfa::Nfa>>::from$", "nfa", "single")):
         fn = F.fn(pat)
         ctx.analysed_fn(fn)
-        ex, paths = run_fn(fn, F, LogModel(), max_paths=6000)
+        ex, paths = run_fn(fn, F, LogModel(), max_paths=6000, desugar=None)   # any/find/or_insert_with are read as terms here
         if ex.truncated:
             ctx.missing("C02.d", "path enumeration of %s truncated" % fn.name)
             continue
@@ -224,21 +224,17 @@ def analyze(ctx, want):
     ob("C02.d", "multi-epsilon_closure:state-0-is-the-union-over-all-pattern-starts", okz, "for state 0: closure(nfa.start_state()) of every nfa", me.loc())
     its = [M.call_name(t) for bb, t in me.calls(ADAPTERS)]
     ob("C02.d", "multi-epsilon_closure:all-nfas-visited", not its, "adapters %s" % its, me.loc())
-    okn = False
-    for p in nonzero:
-        if p.end[0] == "return":
-            r = p.end[1]
-            okn = "find" in S.fstr(r) and "self.nfas" in S.fstr(r)
-    ob("C02.d", "multi-epsilon_closure:other-states-use-their-own-nfa", okn, "closure within the nfa that contains the state", me.loc())
-    for c in F.closures_of(me):
-        ex2, ps = run_fn(c, F, LogModel())
-        for q in ret_paths(ps):
-            r = q.end[1]
-            s_ = S.fstr(r)
-            if "contains_state" in s_:
-                ob("C02.d", "multi-epsilon_closure:nfa-selected-by-containment", "state" in c.upvar_names().values(), "predicate %s" % s_[:80], c.loc())
-            if "epsilon_closure" in s_:
-                ob("C02.d", "multi-epsilon_closure:closure-of-the-same-state", "state" in c.upvar_names().values() and "arg1" in s_, "map %s" % s_[:80], c.loc())
+    # any other state: the closure is computed inside the NFA that contains the state (search over all NFAs, whatever its form)
+    st = search_table(ex, nonzero)
+    okn = bool(st["hit"]) and all("self.nfas" in x for x in st["source"])
+    for r, ic, p in st["hit"]:
+        sel = [c for c, o in ic if o is True and c[0] == "app" and re.search(r"Nfa::contains_state$", c[1]) and S.fstr(c[2][1]) == "state"]
+        ecs = [e for e in p.calls(r"internal::nfa::Nfa::epsilon_closure$")]
+        item = re.search(r"item@bb\d+", S.fstr(sel[0])) if sel else None
+        okn = okn and bool(sel) and len(ecs) == 1 and item is not None and item.group(0) in S.fstr(ecs[0][3][0]) and S.fstr(ecs[0][3][1]) == "state" and S.mentions(r, lambda x: x == ecs[0][4])
+    for ic, p in st["miss"]:
+        okn = okn and any(o is False and c[0] == "app" and re.search(r"Nfa::contains_state$", c[1]) for c, o in ic)
+    ob("C02.d", "multi-epsilon_closure:other-states-use-their-own-nfa", okn, "closure within the nfa that contains the state (hits: %s)" % [S.fstr(r)[:60] for r, _, _ in st["hit"]], me.loc())
 
     for pat, tag in ((r"MultiPatternNfa::get_match_transitions$", "multi"), (r"internal::nfa::Nfa::get_match_transitions$", "single")):
         gm = F.fn(pat)
@@ -261,34 +257,43 @@ def analyze(ctx, want):
                 ob("C02.d", "%s-get_match_transitions:only-exact-duplicates-removed" % tag, ok, "returns %s" % sr[:100], gm.loc())
         its = [M.call_name(t) for bb, t in gm.calls(ADAPTERS)]
         ob("C02.d", "%s-get_match_transitions:all-states-and-transitions-visited" % tag, n >= 1 and not its, "%d push sites; adapters %s" % (n, its), gm.loc())
-    ia = F.fn(r"MultiPatternNfa::is_accepting_state$")
-    ctx.analysed_fn(ia)
-    ex, paths = run_fn(ia, F, LogModel())
-    for p in ret_paths(paths):
-        r = p.end[1]
-        ok = r[0] == "app" and re.search(r"Iterator>::any::", r[1]) is not None and "self.nfas" in S.fstr(r)
-        ob("C02.d", "is_accepting_state:some-nfa-ends-there", ok, "returns %s" % S.fstr(r)[:100], ia.loc())
-    for c in F.closures_of(ia):
-        ex2, ps = run_fn(c, F, LogModel(), inline=r"Nfa::end_state$")
-        for q in ret_paths(ps):
-            r = q.end[1]
-            ok = r[0] == "binop" and r[1] == "Eq" and "end_state" in S.fstr(r) and "arg1" in S.fstr(r)
-            ob("C02.d", "is_accepting_state:compares-the-end-state", ok, "predicate %s" % S.fstr(r)[:80], c.loc())
-    fnf = F.fn(r"MultiPatternNfa::find_nfa$")
-    ex, paths = run_fn(fnf, F, LogModel())
-    for p in ret_paths(paths):
-        r = p.end[1]
-        ob("C02.d", "find_nfa:first-nfa-containing-the-state", "find" in S.fstr(r) and "self.nfas" in S.fstr(r), "returns %s" % S.fstr(r)[:80], fnf.loc())
-    cs = F.fn(r"internal::nfa::Nfa::contains_state$")
-    ex, paths = run_fn(cs, F, LogModel())
-    for p in ret_paths(paths):
-        ob("C02.d", "contains_state:any-state-with-that-id", "any" in S.fstr(p.end[1]) and "self.states" in S.fstr(p.end[1]), "returns %s" % S.fstr(p.end[1])[:80], cs.loc())
-    for c in F.closures_of(cs) + F.closures_of(F.fn(r"internal::nfa::Nfa::find_state$")):
-        ex2, ps = run_fn(c, F, LogModel(), inline=r"NfaState::id$")
-        for q in ret_paths(ps):
-            r = q.end[1]
-            ok = r[0] == "binop" and r[1] == "Eq" and "state" in S.fstr(r) and "arg1" in S.fstr(r)
-            ob("C02.d", "state-lookup-by-id:" + M.short_name(c.name), ok, "predicate %s" % S.fstr(r)[:80], c.loc())
+    def search_rule(fn_rx, key, src_word, hit_value, miss_value, cond_ok, inline=None):
+        """fn searches `src_word` for the first element with cond_ok(cond); hit_value(ret, item) / miss_value(ret)"""
+        fn_ = F.fn(fn_rx)
+        ctx.analysed_fn(fn_)
+        ex_, ps_ = run_fn(fn_, F, LogModel(), inline=inline)
+        st_ = search_table(ex_, ps_)
+        ok = bool(st_["hit"]) and bool(st_["exhausted"]) and bool(st_["source"]) and all(src_word in x for x in st_["source"])
+        det = []
+        for r, ic, p in st_["hit"]:
+            good = [c for c, o in ic if o is True and cond_ok(c)]
+            item = re.search(r"item@bb\d+", S.fstr(good[0])) if good else None
+            if not (good and item and hit_value(r, item.group(0))):
+                ok = False
+                det.append("hit returns %s under %s" % (S.fstr(r)[:50], [(S.fstr(c)[:50], o) for c, o in ic]))
+        for ic, p in st_["miss"]:
+            if not any(o is False and cond_ok(c) for c, o in ic):
+                ok = False
+                det.append("goes on to the next element under %s" % [(S.fstr(c)[:50], o) for c, o in ic])
+        for r, p in st_["exhausted"]:
+            if not miss_value(r):
+                ok = False
+                det.append("without a matching element returns %s" % S.fstr(r)[:50])
+        its_ = [M.short_name(M.call_name(t)) for bb, t in fn_.calls(ADAPTERS)]
+        ob("C02.d", key, ok and not its_, "; ".join(det) or "search over %s (adapters %s)" % (sorted(set(st_["source"]))[:2], its_), fn_.loc())
+
+    is_true = lambda r, item: r == ("bool", True)
+    is_false = lambda r: r == ("bool", False)
+    is_some_item = lambda r, item: r[0] == "adt" and r[2] == "Some" and S.fstr(r[3][0]).lstrip("&*") == item
+    is_none = lambda r: r[0] == "adt" and r[2] == "None"
+    search_rule(r"MultiPatternNfa::is_accepting_state$", "is_accepting_state:some-nfa-ends-there", "self.nfas", is_true, is_false,
+                lambda c: is_eq_of(c, r"item@bb\d+\)?\.end_state$|Nfa::end_state\(&?\*?item@", r"^state$"), inline=r"Nfa::end_state$")
+    search_rule(r"MultiPatternNfa::find_nfa$", "find_nfa:first-nfa-containing-the-state", "self.nfas", is_some_item, is_none,
+                lambda c: c[0] == "app" and re.search(r"Nfa::contains_state$", c[1]) is not None and "item@" in S.fstr(c[2][0]) and S.fstr(c[2][1]) in ("state", "state_id"))
+    search_rule(r"internal::nfa::Nfa::contains_state$", "contains_state:any-state-with-that-id", "self.states", is_true, is_false,
+                lambda c: is_eq_of(c, r"item@bb\d+\)?\.state$", r"^state$"), inline=r"NfaState::id$")
+    search_rule(r"internal::nfa::Nfa::find_state$", "find_state:first-state-with-that-id", "self.states", is_some_item, is_none,
+                lambda c: is_eq_of(c, r"item@bb\d+\)?\.state$", r"^state$"), inline=r"NfaState::id$")
 
     # ---------------------------------------------------------------- C02.e renumbering
     tp = F.fn(r"MultiPatternNfa::try_from_patterns$")
@@ -329,6 +334,6 @@ def analyze(ctx, want):
     ob("C02.e", "state-0-reserved-for-the-common-start", init == 1, "initial next_state = %s" % init, tp.loc())
     hn = F.fn(r"internal::nfa::Nfa::highest_state_number$")
     ex, paths = run_fn(hn, F, LogModel())
-    for p in ret_paths(paths):
-        r = S.fstr(p.end[1])
-        ob("C02.e", "highest_state_number-is-the-maximum-id", "max_by" in r and "self.states" in r and "min_by" not in r, "returns %s" % r[:100], hn.loc())
+    rs_ = [S.fstr(p.end[1]) for p in ret_paths(paths)]
+    ok_max = any(re.search(r"max_by(_key)?\(|Iterator>::max\(", r) and "self.states" in r and "min" not in r for r in rs_) and all(r == "0" or (re.search(r"max", r) and "self.states" in r) for r in rs_)
+    ob("C02.e", "highest_state_number-is-the-maximum-id", ok_max, "returns %s" % [r[:80] for r in rs_], hn.loc())
